@@ -37,6 +37,7 @@ import (
 //	k_swap     exchange the files of two IDs
 //	k_blocks   reorder / drop / duplicate whole encrypted blocks inside one file
 //	k_fbshort  fallback reader configured and file cut to 1..11 bytes
+//	k_ueof     the reader given to Set fails with io.ErrUnexpectedEOF
 type C09 struct{}
 
 func (C09) ID() string { return "C09" }
@@ -115,6 +116,9 @@ func (C09) Generate(r *core.Rand, tier string, idx int) *core.Scenario {
 	}
 	if sc.Cfg["fallback"] != 0 && r.P(1, 3) {
 		sc.Cfg["k_fbshort"] = 1
+	}
+	if r.P(1, 14) {
+		sc.Cfg["k_ueof"] = 1
 	}
 	n := r.Range(6, 16)
 	for i := 0; i < sc.Cfg["nids"]; i++ {
@@ -257,15 +261,39 @@ func c09MkIDs(n int) ([]imap.InternalMessageID, error) {
 	return ids, nil
 }
 
-// c09Call runs f, turning a panic into a string.
+// c09Call runs f, turning a panic into a string: the panic value and the gluon frames of
+// the stack, without addresses (the text must be the same in every process).
 func c09Call(f func()) (pan string) {
 	defer func() {
 		if r := recover(); r != nil {
-			pan = fmt.Sprintf("%v\n%s", r, debug.Stack())
+			pan = fmt.Sprintf("%v", r) + c09GluonFrames(string(debug.Stack()))
 		}
 	}()
 	f()
 	return ""
+}
+
+func c09GluonFrames(stack string) string {
+	lines := strings.Split(stack, "\n")
+	var sb strings.Builder
+	for i := 0; i+1 < len(lines); i++ {
+		l := lines[i]
+		if !strings.HasPrefix(l, "github.com/ProtonMail/gluon/") {
+			continue
+		}
+		if k := strings.LastIndexByte(l, '('); k > 0 {
+			l = l[:k]
+		}
+		loc := strings.TrimSpace(lines[i+1])
+		if k := strings.Index(loc, " +0x"); k > 0 {
+			loc = loc[:k]
+		}
+		if k := strings.Index(loc, "/gluon/"); k >= 0 {
+			loc = loc[k+len("/gluon/"):]
+		}
+		sb.WriteString("\n  at " + strings.TrimPrefix(l, "github.com/ProtonMail/gluon/") + " (" + loc + ")")
+	}
+	return sb.String()
 }
 
 // ---- sequential / corruption executor ----
@@ -427,6 +455,26 @@ func (e *c09ErrReader) Read(p []byte) (int, error) {
 
 var errC09Reader = errors.New("c09: injected reader failure")
 
+// c09ChunkReader hands the data out in short reads of varying size.
+type c09ChunkReader struct {
+	data []byte
+	rng  c09rng
+}
+
+func (c *c09ChunkReader) Read(p []byte) (int, error) {
+	if len(c.data) == 0 {
+		return 0, io.EOF
+	}
+	n := 1 + int(c.rng.next()%7000)
+	if c.rng.next()%4 == 0 {
+		n = 1 + int(c.rng.next()%3)
+	}
+	n = min(n, len(p), len(c.data))
+	copy(p, c.data[:n])
+	c.data = c.data[n:]
+	return n, nil
+}
+
 // aligned builds (knob k_align) a value of 4 LZ4 blocks + tail whose fourth LZ4 block ends
 // exactly where the first cipher block ends.  Black-box search on the file size.
 func (x *c09Seq) aligned(seed uint64, tail int) []byte {
@@ -497,15 +545,24 @@ func (x *c09Seq) doSet(a core.Action, failAt int) {
 	var err error
 	var how string
 	var rd io.Reader = bytes.NewReader(data)
+	cut := 0
 	if failAt >= 0 {
-		cut := failAt % (n + 1)
+		cut = failAt % (n + 1)
 		if x.sc.C("k_trunc27") == 0 && cut < 330000 {
 			cut = 330000 + cut%(n+1-330000)
 		}
 		rd = &c09ErrReader{r: bytes.NewReader(data[:cut]), err: errC09Reader}
 		how = fmt.Sprintf("setfail@%d", cut)
+		if x.sc.C("k_ueof") == 1 && via%2 == 1 {
+			// the reader fails with io.ErrUnexpectedEOF (what a cut-off upstream returns)
+			rd = &c09ErrReader{r: bytes.NewReader(data[:cut]), err: io.ErrUnexpectedEOF}
+			how = fmt.Sprintf("setfail-ueof@%d", cut)
+		}
 	}
 	via = ((via % 8) + 8) % 8
+	if failAt < 0 && via == 5 && n <= 300000 {
+		rd = &c09ChunkReader{data: data, rng: c09rng{s: uint64(cseed)}}
+	}
 	pan := c09Call(func() {
 		switch {
 		case failAt >= 0:
@@ -537,7 +594,7 @@ func (x *c09Seq) doSet(a core.Action, failAt int) {
 	if failAt >= 0 {
 		x.st.Faults["reader_error"]++
 		if err == nil {
-			x.fail("set-error-lost", "reader error swallowed", "Set(id%d) returned nil although its reader failed (%s)", id, how)
+			x.fail("set-error-lost", "reader error swallowed", "Set(id%d) returned nil although its reader failed (%s) after %d of %d bytes", id, how, cut, n)
 			return
 		}
 		old := *e
@@ -545,7 +602,7 @@ func (x *c09Seq) doSet(a core.Action, failAt int) {
 		if old.has && len(old.faults) == 0 && !old.maybeGone {
 			e.alt, e.hasAlt = old.data, true
 		}
-		x.leak("failed Set", "setfail")
+		x.leak("failed Set", "setfail", "setfail")
 		return
 	}
 	if err != nil {
@@ -570,7 +627,7 @@ func (x *c09Seq) doSet(a core.Action, failAt int) {
 	if n >= 1<<20 {
 		x.st.Probes["value_1MiB_or_more"]++
 	}
-	x.leak("Set", "clean")
+	x.leak("Set", "clean", "")
 }
 
 func c09NotExist(err error) bool { return errors.Is(err, fs.ErrNotExist) }
@@ -616,7 +673,7 @@ func (x *c09Seq) doGet(id int) {
 		x.fail("panic", "Get "+ctx, "Get(id%d) panicked (file state: %s, faults %v): %s", id, ctx, e.faults, pan)
 		return
 	}
-	defer x.leak("Get", ctx)
+	defer x.leak("Get", ctx, strings.Join(e.faults, "+"))
 	switch {
 	case !e.has && !e.exists:
 		if err == nil {
@@ -637,6 +694,11 @@ func (x *c09Seq) doGet(id int) {
 				*e = c09Ent{}
 			}
 			x.st.Probes["fault_detected_by_get"]++
+			return
+		}
+		if len(e.faults) == 0 && !e.maybeGone && e.pass != x.w.cur {
+			// the only thing wrong is the passphrase: the statement demands an error
+			x.fail("get-wrongpass", "value readable with another passphrase", "Get(id%d) returned %d bytes and no error although the store was reopened with a different passphrase than the one the file was written with", id, len(got))
 			return
 		}
 		if bytes.Equal(got, e.data) || e.hasAlt && bytes.Equal(got, e.alt) {
@@ -771,7 +833,7 @@ func (x *c09Seq) doList() {
 
 // leak: after the operation returned and everything parked, no goroutine of the store may
 // remain.
-func (x *c09Seq) leak(op, ctx string) {
+func (x *c09Seq) leak(op, ctx, faults string) {
 	if x.failed() {
 		return
 	}
@@ -788,7 +850,7 @@ func (x *c09Seq) leak(op, ctx string) {
 		x.base[g.id] = true
 	}
 	x.tr.Event("leak", op, ctx, len(l))
-	x.fail("goroutine-leak", op+" "+ctx, "%d goroutine(s) of the store still blocked after %s returned (file state: %s): [%s] in %s", len(l), op, ctx, l[0].state, l[0].top)
+	x.fail("goroutine-leak", op+" "+ctx, "%d goroutine(s) of the store still blocked after %s returned (file state: %s; faults: %s): [%s] in %s", len(l), op, ctx, faults, l[0].state, l[0].top)
 }
 
 // ---- faults ----
